@@ -174,7 +174,14 @@ func (k c01case) contBytes(rng *core.Rng) []byte {
 func (ch c01) Run(c *core.Ctx) {
 	probe := &hs.Prog{Stmts: []*hs.Stmt{{ID: "probe", Cols: textCols(1), Ops: []hs.Op{{K: "row", Vals: []any{"p"}}, {K: "complete", Tag: "SELECT 1"}}}}}
 	mk := func(strategy wire.AuthStrategy) *hs.Env {
-		return hs.Start(hs.Parse, wire.SessionAuthStrategy(strategy), wire.SessionMiddleware(c01session))
+		opts := []wire.OptionFn{wire.SessionAuthStrategy(strategy), wire.SessionMiddleware(c01session)}
+		if c.Batch%2 == 1 {
+			// hooks of the embedding program for the end of a connection, one that reports an error and one
+			// that does not: whatever a hook does or returns, a rejected connection is closed
+			opts = append(opts, wire.CloseConn(func(ctx context.Context) error { return errors.New("close hook: audit log unavailable") }),
+				wire.TerminateConn(func(ctx context.Context) error { return nil }))
+		}
+		return hs.Start(hs.Parse, opts...)
 	}
 	envs := map[string]*hs.Env{
 		"cleartext": mk(wire.ClearTextPassword(c01validator)),
